@@ -146,6 +146,7 @@ pub fn helper_main(args: &[OsString]) -> i32 {
         "noout" => TrOp::Cat,
         "needkey" => TrOp::Cat,
         "scribble" => TrOp::Cat,
+        "sidefile" => TrOp::Cat,
         s if s.starts_with("head:") => TrOp::Head(s[5..].parse().unwrap_or(0)),
         _ => return 2,
     };
@@ -170,6 +171,15 @@ pub fn helper_main(args: &[OsString]) -> i32 {
             let _ = std::fs::write(p, &d2);
         }
         return 0;
+    }
+    if opname == "sidefile" {
+        // a transform that leaves a by-product beside its input, as e.g. compressors and converters do
+        // (legitimate: without --no-copy the input is a private copy in fclones' temporary directory)
+        if let Some(p) = &src {
+            let mut q = p.clone();
+            q.push(".side");
+            let _ = std::fs::write(q, b"by-product");
+        }
     }
     if opname == "failafterread" {
         return 5;
